@@ -33,6 +33,8 @@ def mark_old(ctx, v, depth=0):
             k = z3.Int("k!old")
             it = ctx.sitem(v, k)
             ctx.assume(z3.ForAll([k], z3.Or(it.z == 0, ctx.is_old(it.z))))
+            if not v.elem.nullable:
+                ctx.assume(z3.ForAll([k], z3.Implies(z3.And(0 <= k, k < ctx.slen(v.z)), it.z != 0)))
     elif v.kind == "tuple":
         for x in v.items:
             mark_old(ctx, x, depth + 1)
